@@ -2,6 +2,7 @@ package c11
 
 import (
 	"context"
+	"time"
 
 	"github.com/cosi-project/runtime/api/v1alpha1"
 	"github.com/cosi-project/runtime/pkg/resource"
@@ -61,6 +62,14 @@ func (t *twin) both(label string, op func(st state.State) (resource.Resource, bo
 	verif.Assert(bd == br, label+": same boolean result")
 	if ed == nil && rd != nil {
 		verif.Assert(rr != nil && sameMD(rd.Metadata(), rr.Metadata()) && tres.SpecOf(rd) == tres.SpecOf(rr), label+": same resulting object (version, owner, phase, finalizers, labels, spec)")
+		// the update time stamped by the store is written back into the caller's object on both paths
+		ctx := context.Background()
+		sd, gd := t.direct.Get(ctx, rd.Metadata())
+		sr, gr := t.remote.Get(ctx, rr.Metadata())
+		if gd == nil && gr == nil {
+			verif.Assert(rd.Metadata().Updated().Equal(sd.Metadata().Updated()), label+": update time written back (direct)")
+			verif.Assert(rr.Metadata().Updated().Equal(sr.Metadata().Updated()), label+": same write-back of the update time through the remote handle")
+		}
 	}
 }
 
@@ -116,6 +125,7 @@ func H_Transparency() {
 		verif.Case("Create")
 		t.both("Create", func(st state.State) (resource.Resource, bool, error) {
 			r := tres.NewA(tres.NS, id, "v2")
+			time.Sleep(time.Second) // the object is older than the call: the store's stamp differs from the caller's
 			err := st.Create(ctx, r, state.WithCreateOwner(owner))
 			return r, false, err // the caller's object is written back
 		})
@@ -140,6 +150,7 @@ func H_Transparency() {
 			case 2:
 				opts = append(opts, state.WithExpectedPhase(resource.PhaseTearingDown))
 			}
+			time.Sleep(time.Second)
 			err := st.Update(ctx, upd, opts...)
 			return upd, false, err
 		})
